@@ -226,6 +226,8 @@ def impl_other(ts, cfg, kind, timeout=10.0):
             d = os.path.join(os.path.dirname(os.path.dirname(os.path.dirname(os.path.abspath(__file__)))), "work", "sink")
             os.makedirs(d, exist_ok=True)
             path = os.path.join(d, "out_%d.shex" % os.getpid())
+            with open(path, "w") as f:          # the path is being reused: what it held must disappear
+                f.write("# stale content of an earlier extraction\n:Stale {\n   :p  IRI\n}\n")
             sh.shex_graph(output_file=path, acceptance_threshold=(k / m))
             with open(path, newline="") as f:
                 text = f.read()
@@ -235,6 +237,8 @@ def impl_other(ts, cfg, kind, timeout=10.0):
             d = os.path.join(os.path.dirname(os.path.dirname(os.path.dirname(os.path.abspath(__file__)))), "work", "sink")
             os.makedirs(d, exist_ok=True)
             path = os.path.join(d, "profile_%d.json" % os.getpid())
+            with open(path, "w") as f:
+                f.write('{"stale": [{}, {}]}\n' * 40)
             sh.profile_graph(output_file=path)
             with open(path) as f:
                 text = f.read()
